@@ -108,9 +108,7 @@ Example window_ex :
   schain (w_st (after w [h2; h3; h4; h5; h6])) (KGen 0) [KGen 1; KGen 2].
 Proof.
   cbv zeta. split; [vm_compute; reflexivity|]. split; [vm_compute; reflexivity|]. split.
-  - cbn [hist_ok]. repeat split; try exact Logic.I; try (vm_compute; reflexivity);
-      try (vm_compute; discriminate);
-      vm_compute; intros [H|[]]; discriminate.
+  - vm_compute. repeat split; try discriminate; try (intros [H|[]]; discriminate); try (intros []).
   - vm_compute. repeat split.
 Qed.
 
